@@ -33,8 +33,9 @@ constexpr auto atan2_compute(T const y, T const x) noexcept -> T
     return static_cast<T>( // NaN check
         any_nan(y, x) ? etl::numeric_limits<T>::quiet_NaN() :
                       //
-            etl::numeric_limits<T>::epsilon() > abs(x) ? //
-            etl::numeric_limits<T>::epsilon() > abs(y) ? neg_zero(y) ? neg_zero(x) ? -T(etl::numbers::pi) : -T(0)
+            // x is a zero (small non-zero arguments are ordinary arguments: atan2(1e-10, 1e-10) is pi/4)
+            x == T(0) ? //
+            y == T(0) ? neg_zero(y) ? neg_zero(x) ? -T(etl::numbers::pi) : -T(0)
                                                        : neg_zero(x) ? T(etl::numbers::pi)
                                                                      : T(0)
             : y > T(0) ? T(GCEM_HALF_PI)
